@@ -13,8 +13,8 @@
    OpenVPN: framing + opcode + key id + length gates are given as an equation over a complete message (TCP and
    UDP), and the three attempts on a V2 body / the attempt on a V3 body are characterised by "some enabled mode
    parses the body (CodecOpenVpn, whose parsers are exact inverses of the encoders: C18) and the mode's field rules
-   hold".  The per-mode rules with abstract HMAC/AES are the model's; hence [_partial] in the names below. *)
-From Coq Require Import List NArith ZArith Bool Arith.
+   hold" - and then, further below, against the INDEPENDENT reference model/OpenVpnRef.v (one theorem per mode). *)
+From Coq Require Import List NArith ZArith Bool Arith Lia.
 From Coq.Strings Require Import Byte.
 From L4.model Require Import GoBase CodecOpenVpn MatchOpenVpn MatchDns OpenVpnRef.
 From L4.proofs Require Import MatchOpenVpnProofs MatchDnsProofs OpenVpnRefProofs.
@@ -118,6 +118,23 @@ Theorem C14_openvpn_honest_crypt_client_matches : forall hmac ctr now rc ld tcp 
   rp_id rp = 1%N -> (no_ts rc = true \/ ts_ok now (rp_ts rp)) ->
   fst (ovpn_match hmac ctr now (provision rc) ld tcp (wire tcp (encode (honest_crypt hmac ctr k 0 sid rp 0 0)))) = Yes.
 Proof. exact honest_crypt_matches. Qed.
+(* tls-crypt-v2 (server key and/or configured client keys): completeness whenever the wrapped key's plaintext is not 257 bytes
+   (metadata = a lone type byte: there the module's HMAC text deviates from  len | Kc | metadata  - recorded finding, witness
+   below), and the equivalence when in addition neither tag is the output of a foreign 32-byte digest and the configured
+   wrapped keys determine their client keys - hence _partial *)
+Theorem C14_openvpn_crypt2_complete : forall hmac ctr now rc ld tcp kid sid rp tag enc wtag wenc, rcfg_wf rc -> wrapped_distinct rc -> ld_ok ld ->
+  fits (TlsCrypt2 kid sid rp tag enc wtag wenc) -> length wenc <> 257%nat ->
+  passes hmac ctr now rc (TlsCrypt2 kid sid rp tag enc wtag wenc) ->
+  fst (ovpn_match hmac ctr now (provision rc) ld tcp (wire tcp (encode (TlsCrypt2 kid sid rp tag enc wtag wenc)))) = Yes.
+Proof. exact crypt2_complete. Qed.
+Theorem C14_openvpn_crypt2_match_iff_ref_partial : forall hmac ctr now rc ld tcp kid sid rp tag enc wtag wenc,
+  rcfg_wf rc -> wrapped_distinct rc -> ld_ok ld ->
+  fits (TlsCrypt2 kid sid rp tag enc wtag wenc) -> (N.of_nat (length wenc) < 60000)%N -> length wenc <> 257%nat ->
+  sha256_only hmac tag -> sha256_only hmac wtag ->
+  (fst (ovpn_match hmac ctr now (provision rc) ld tcp (wire tcp (encode (TlsCrypt2 kid sid rp tag enc wtag wenc)))) = Yes <->
+   passes hmac ctr now rc (TlsCrypt2 kid sid rp tag enc wtag wenc)).
+Proof. exact crypt2_match_iff_ref_partial. Qed.
+
 (* the module's key selectors against the documented quarters *)
 Theorem C14_openvpn_auth_key_quarters : forall k d size, length k = 256%nat ->
   client_auth_key (dir_key k d) size = Some (auth_key k d size).
@@ -177,7 +194,28 @@ Example C14_ovpn_dns_nonvacuous :
   lower_ascii [x42; x4c; x6f; x2e; x5a; x40; x5b] = [x62; x6c; x6f; x2e; x7a; x40; x5b].
 Proof. vm_compute. repeat split. Qed.
 
+(* the 257-byte case: a wrapped key whose metadata is the type byte only passes the reference but is not matched *)
+Definition t_hmac : nat -> list byte -> list byte -> list byte := fun d _ t => firstn (digest_size d) (t ++ repeat x00 64).
+Definition t_wenc : list byte := repeat x07 257.
+Definition t_wtag : list byte := [x01; x23] ++ repeat x07 30.
+Definition t_rc : rcfg := {| m_plain := false; m_auth := false; m_crypt := false; m_crypt2 := true; no_crypto := false; no_ts := true;
+  group_key := None; gk_dir := DNormal; want_digest := None; srv_key := Some (repeat x09 128); cl_keys := [] |}.
+Definition t_tag : list byte := t_hmac 4 [] (crypt_text 10 0 5 ex_rp (repeat x00 5)).
+Definition t_msg : omsg := TlsCrypt2 0 5 ex_rp t_tag (repeat x00 5) t_wtag t_wenc.
+Theorem C14_openvpn_crypt2_type_only_metadata_refuted :
+  rcfg_wf t_rc /\ fits t_msg /\ passes t_hmac ex_ctr 0 t_rc t_msg /\
+  fst (ovpn_match t_hmac ex_ctr 0 (provision t_rc) None true (wire true (encode t_msg))) = No.
+Proof.
+  split; [unfold rcfg_wf, t_rc; cbn; repeat split; auto|].
+  split; [vm_compute; repeat split|].
+  split; [|vm_compute; reflexivity].
+  unfold t_msg. cbn [passes]. repeat split; try reflexivity; try (vm_compute; lia); try (left; reflexivity).
+  right. cbn [t_rc cl_keys srv_key]. exists (repeat x07 256).
+  split; [split; [reflexivity|split; vm_compute; reflexivity]|split; vm_compute; reflexivity].
+Qed.
+
 Print Assumptions C14_dns_rule_table_eq_spec.
+Print Assumptions C14_openvpn_crypt2_type_only_metadata_refuted.
 Print Assumptions C14_dns_rules_case_insensitive.
 Print Assumptions C14_dns_tcp_match_iff_ref.
 Print Assumptions C14_dns_udp_match_iff_ref.
@@ -192,6 +230,8 @@ Print Assumptions C14_openvpn_honest_auth_client_matches.
 Print Assumptions C14_openvpn_crypt_complete.
 Print Assumptions C14_openvpn_crypt_match_iff_ref_partial.
 Print Assumptions C14_openvpn_honest_crypt_client_matches.
+Print Assumptions C14_openvpn_crypt2_complete.
+Print Assumptions C14_openvpn_crypt2_match_iff_ref_partial.
 Print Assumptions C14_openvpn_auth_key_quarters.
 Print Assumptions C14_openvpn_crypt_key_quarters.
 Print Assumptions C14_openvpn_ref_nonvacuous.
